@@ -34,7 +34,7 @@ impl Instant {
     { unimplemented!() }
     #[verifier::external_body]
     pub fn saturating_duration_since(&self, earlier: Instant) -> (r: Duration)
-        ensures r.ns() == (if self.ns() >= earlier.ns() { self.ns() - earlier.ns() } else { 0 }) as nat
+        ensures r.ns() == (if self.ns() >= earlier.ns() { self.ns() - earlier.ns() } else { 0 }) as nat, r.wf()  // every std Duration value is in range
     { unimplemented!() }
 }
 impl PartialEq for Instant { #[verifier::external_body] fn eq(&self, o: &Instant) -> bool { unimplemented!() } }
